@@ -346,7 +346,7 @@ pub fn replay(path: &str) -> i32 {
         }
     };
     let me = std::env::current_exe().unwrap().to_string_lossy().to_string();
-    let tmp = format!("/verif/target/tmp/replay-{}", std::process::id());
+    let tmp = format!("{}/target/tmp/replay-{}", crate::home(), std::process::id());
     let r = run_child(&me, &rf.case, &tmp, 600);
     let _ = std::fs::remove_dir_all(&tmp);
     let cl = classes(&rf.property, &r);
